@@ -60,13 +60,13 @@ structure Static (C : Consts) (c : Conn) : Prop where
 
 /-- bookkeeping between delivered frames, remaining calls and output; `pend` = items of an open
     reply stream that have not been written yet -/
-structure Book (c : Conn) (pend : List (Nat × Bool)) : Prop where
+structure Book (c : Conn) (pend : List (Nat × Option Bool)) : Prop where
   k_le : c.k ≤ c.frames.length
   calls : c.calls = c.descs.drop c.k
   out : c.out ++ pend.map tokOf = expectedOut (c.descs.take c.k)
 
 /-- a live, well-behaved connection -/
-structure CInv (C : Consts) (c : Conn) (pend : List (Nat × Bool)) : Prop where
+structure CInv (C : Consts) (c : Conn) (pend : List (Nat × Option Bool)) : Prop where
   st : Static C c
   bk : Book c pend
   rx : Inv C c.frames c.rx c.net c.fut (c.frames.take c.k)
@@ -81,7 +81,7 @@ structure WInv (C : Consts) (o : Out) (c : Conn) : Prop where
 
 /-- Obligations exist for well-behaved (`good`) connections only: nothing is assumed, and nothing
     needs to be shown, about a connection whose client misbehaves or whose transport fails. -/
-def CInvG (C : Consts) (c : Conn) (pend : List (Nat × Bool)) : Prop := c.good = true → CInv C c pend
+def CInvG (C : Consts) (c : Conn) (pend : List (Nat × Option Bool)) : Prop := c.good = true → CInv C c pend
 def DeadG (C : Consts) (c : Conn) : Prop := c.good = true → Static C c ∧ Book c []
 
 structure GInv (C : Consts) (s : S) : Prop where
@@ -94,7 +94,7 @@ theorem Static.transfer {C : Consts} {c c' : Conn} (h : Static C c) (hf : c'.fra
     (hd : c'.descs = c.descs) (hw : c'.wfail = c.wfail) : Static C c' :=
   ⟨by rw [hf]; exact h.ok, by rw [hf]; exact h.small, by rw [hf, hd]; exact h.len, by rw [hw]; exact h.nofail⟩
 
-theorem Book.transfer {c c' : Conn} {p : List (Nat × Bool)} (h : Book c p) (hk : c'.k = c.k)
+theorem Book.transfer {c c' : Conn} {p : List (Nat × Option Bool)} (h : Book c p) (hk : c'.k = c.k)
     (hf : c'.frames = c.frames) (hd : c'.descs = c.descs) (hc : c'.calls = c.calls) (ho : c'.out = c.out) :
     Book c' p :=
   ⟨by rw [hk, hf]; exact h.k_le, by rw [hc, hd, hk]; exact h.calls, by rw [ho, hd, hk]; exact h.out⟩
@@ -390,7 +390,7 @@ theorem iter_inv (C : Consts) (hstep : 0 < C.step) (sizes : Nat → Nat) (s s' :
           simp only [] at h
           -- the well-behaved connection after the loop has consumed the frame, with pending stream
           -- items `pend` and extra output `extra` such that extra ++ pend = answer d
-          have hmk : c.good = true → ∀ (extra : List Tok) (pend : List (Nat × Bool)) (nw : Nat),
+          have hmk : c.good = true → ∀ (extra : List Tok) (pend : List (Nat × Option Bool)) (nw : Nat),
               extra ++ pend.map tokOf = answer d →
               CInv C { c with calls := rest, k := c.k + 1, out := c.out ++ extra, nwrites := nw } pend := by
             intro hg extra pend nw hans
@@ -408,14 +408,14 @@ theorem iter_inv (C : Consts) (hstep : 0 < C.step) (sizes : Nat → Nat) (s s' :
               rw [this]
             · show Inv C c.frames c.rx c.net c.fut (c.frames.take (c.k + 1))
               rw [htake]; exact hrx
-          have hechofail : ∀ (d : Desc), (∀ m, d ≠ .sub m) → d ≠ .garbage →
+          have hechofail : ∀ (d : Desc), (∀ m p, d ≠ .sub m p) → d ≠ .garbage →
               (let s1 : S := { s with conns := conns', lastCall := some idx, served := s.served ++ [(c.id, d)], listenQ := [] }
                let c1 : Conn := { c with calls := rest, k := c.k + 1 }
                (if answer d = [] then some { s1 with conns := s1.conns.set idx c1 }
                 else match writeTo c1 (answer d) with
                   | some c' => some { s1 with conns := s1.conns.set idx c' }
                   | none => some { s1 with conns := swapRemove s1.conns idx, dead := c1 :: s1.dead }) = some s') →
-              c.calls = d :: rest → (c.good = true → ∀ (extra : List Tok) (pend : List (Nat × Bool)) (nw : Nat),
+              c.calls = d :: rest → (c.good = true → ∀ (extra : List Tok) (pend : List (Nat × Option Bool)) (nw : Nat),
                 extra ++ pend.map tokOf = answer d →
                 CInv C { c with calls := rest, k := c.k + 1, out := c.out ++ extra, nwrites := nw } pend) →
               GInv C s' := by
@@ -463,7 +463,7 @@ theorem iter_inv (C : Consts) (hstep : 0 < C.step) (sizes : Nat → Nat) (s s' :
               have := hmk hg [] [] c.nwrites (by simp [answer])
               exact ⟨this.st.transfer rfl rfl rfl, this.bk.transfer rfl rfl rfl rfl (by simp)⟩
             · exact g.dead x h1
-          | sub m =>
+          | sub m p =>
             simp only [] at h
             cases h
             refine ⟨(forall_pos_iff_mem _ _).mpr hothers_sr, by simp, ?_, g.dead⟩
@@ -473,10 +473,10 @@ theorem iter_inv (C : Consts) (hstep : 0 < C.step) (sizes : Nat → Nat) (s s' :
               exact g.streams j' x hj'
             · simp at h1; subst h1
               intro hg
-              have := hmk hg [] (itemsOf m) c.nwrites (by simp [answer])
+              have := hmk hg [] (itemsOf m p) c.nwrites (by simp [answer])
               exact ⟨this.st.transfer rfl rfl rfl, this.bk.transfer rfl rfl rfl rfl (by simp), this.rx, this.cl⟩
-          | echo v ow => exact hechofail (.echo v ow) (by intro m hm; cases hm) (by intro hm; cases hm) (by simp only [] at h; exact h) hcalls hmk
-          | fail ow => exact hechofail (.fail ow) (by intro m hm; cases hm) (by intro hm; cases hm) (by simp only [] at h; exact h) hcalls hmk
+          | echo v ow => exact hechofail (.echo v ow) (by intro m p hm; cases hm) (by intro hm; cases hm) (by simp only [] at h; exact h) hcalls hmk
+          | fail ow => exact hechofail (.fail ow) (by intro m p hm; cases hm) (by intro hm; cases hm) (by simp only [] at h; exact h) hcalls hmk
 
 /-- a poll of the server future (any number of iterations) preserves the invariant -/
 theorem pollServer_inv (C : Consts) (hstep : 0 < C.step) (sizes : Nat → Nat) :
